@@ -15,6 +15,7 @@ import (
 
 	"sync/atomic"
 
+	"github.com/douban/gobeansdb/cmem"
 	"github.com/douban/gobeansdb/config"
 	"github.com/douban/gobeansdb/loghub"
 	"github.com/douban/gobeansdb/utils"
@@ -123,6 +124,15 @@ func (c *ServerConn) ServeOnce(storageClient StorageClient, stats *Stats) (err e
 			err = nil
 		}
 	} else if overdue(req.ReceiveTime, t) {
+		// the command is dropped without being processed: give back what Request.Read counted for it
+		if req.Item != nil {
+			if req.Cmd == "incr" || req.Cmd == "decr" {
+				cmem.DBRL.SetData.SubCount(1)
+			} else {
+				cmem.DBRL.SetData.SubSizeAndCount(req.Item.CArray.Cap)
+				req.Item.CArray.Free()
+			}
+		}
 		req.SetStat("recv_timeout")
 		resp = new(Response)
 		resp.Status = "RECV_TIMEOUT"
